@@ -52,6 +52,8 @@ def shards(tier, seed):
     out.append({'name': 'proc-serial', 'what': 'serial', **lim})
     for j in range(4):
         out.append({'name': f'pipe{j}', 'what': 'pipe', 'mod': 4, 'rem': j, **lim})
+    for j in range(4):
+        out.append({'name': f'schedpipe{j}', 'what': 'schedpipe', 'mod': 4, 'rem': j, **lim})
     return out
 
 
@@ -102,6 +104,8 @@ def run_shard(spec, res):
         run_serial(spec, res)
     elif what == 'pipe':
         run_pipe(spec, res)
+    elif what == 'schedpipe':
+        run_schedpipe(spec, res)
 
 
 def run_real(spec, res):
@@ -280,6 +284,86 @@ def run_pipe(spec, res):
                                           sig={'entry': 'pipeline'})
         except ob.Watchdog:
             res.inconclusive_because(f'watchdog on {prog!r}')
+
+
+def run_schedpipe(spec, res):
+    """Pool prefetch / parallel map over pipelines whose stages keep state per
+    object (concatenations, tiles, caches, slices, items ...), under the
+    controlled scheduler with *all* of core.py traced: the workers share one
+    frozen copy of the pipeline, so every line of every stage is a point where
+    another worker may run."""
+    import random
+    from .. import programs
+    e = conc.env()
+    ld, core, pu = e['ld'], e['core'], e['pu']
+    traced = {pu.__file__: None, core.__file__: None}
+    rng = rng_for(spec['seed'], PROPERTY, spec['name'])
+    from ..terms import Fn
+    tails = [
+        [('concat', 'self')], [('tile', 3)], [('concat3', 'dict', 'method')],
+        [('concat', 'selfmap'), ('batch', 2, False)], [('tile', 2), ('batch', 3, True)],
+        [('cache',)], [('map', 'f'), ('cache',), ('map', 'g')],
+        [('intersperse', 'selfmap')], [('zip', 'selfmap')], [('items',)],
+        [('slice', 'slice', (None, None, -1)), ('concat', 'self')],
+        [('key_zip', 'selfmap')], [('batch', 2, False), ('concat', 'self')],
+        [('shuffle', 1), ('tile', 2)], [('sort', True), ('concat', 'selfmap')],
+        [('concat', 'self'), ('concat', 'self')], [('concat3', 'dict', 'function'), ('items',)],
+        [('concat', 'self'), ('cache',)],
+    ]
+    variants = [('prefetch(2,2)', lambda d: d.prefetch(2, 2, 't')),
+                ('prefetch(3,3)', lambda d: d.prefetch(3, 3, 't')),
+                ('prefetch(2,3)+catch', lambda d: d.prefetch(2, 3, 't',
+                                                            catch_filter_exception=True))]
+    cases = [(t, v) for t in tails for v in variants]
+    for ci, (tail, (vname, wrap)) in enumerate(cases):
+        if ci % spec['mod'] != spec['rem']:
+            continue
+        prog = {'src': ('dict', 3, 'pickle'), 'ops': list(tail)}
+        status, m = programs.classify(prog)
+        if status != 'ok' or not (getattr(m, 'findexable', m.indexable) and m.sized):
+            continue
+        want = m.values
+        for i in range(spec['rnd_runs']):
+            seed = rng.randrange(1 << 30)
+            name = ('random', 'sticky', 'pct', 'youngest')[i % 4]
+            out = {}
+
+            def body(S):
+                def slow(x):
+                    S.preempt()
+                    return x
+                ds = wrap(programs.build(ld, prog).map(slow))
+                out['got'] = list(ds)
+                out['again'] = list(ds)
+            case = {'prog': prog, 'stage': vname, 'schedule': (name, seed)}
+            try:
+                D.run(cs.chooser_for(name, random.Random(seed)), traced, body,
+                      step_limit=400000)
+            except D.Deadlock as dl:
+                res.violation('iteration-never-completes', case, {'blocked': dl.args[0]},
+                              sig={'entry': 'pipeline', 'harness': 'scheduler'})
+                continue
+            except D.StepLimit:
+                res.inconclusive_because(f'step limit in {case!r}')
+                continue
+            except BaseException as exc:
+                res.violation('parallel-stage-refused-supported-pipeline', case,
+                              repr(exc)[:200],
+                              sig={'stage': vname.split('(')[0], 'harness': 'scheduler',
+                                   'exc': type(exc).__name__})
+                continue
+            S = D.S
+            res.count('scheduled_pipeline_executions')
+            res.count('choice_points', S.nchoices)
+            res.case(('schedpipe', repr(prog), vname, tuple(c[1] for c in S.choices[:200])),
+                     S.max_enabled >= 2)
+            if out.get('got') != want or out.get('again') != want:
+                res.violation('delivered-sequence-differs', case,
+                              {'delivered': out.get('got'), 'second': out.get('again'),
+                               'want': want},
+                              sig={'entry': 'pipeline', 'harness': 'scheduler',
+                                   'stage': vname.split('(')[0]})
+                break
 
 
 def run_serial(spec, res):
